@@ -367,8 +367,8 @@ def param_test_summaries(P):
     """fn name -> set(param index): the function compares that pointer parameter with NULL (or uses it as a
     truth value) and never dereferences it - a predicate such as `alloc_ok(dec, ptr, count)`. A caller
     that hands its fresh allocation to such a function and acts on the answer has tested it."""
-    if id(P) in _pt_cache:
-        return _pt_cache[id(P)]
+    if '_pt_cache' in P.__dict__.setdefault("_memo", {}):
+        return P.__dict__["_memo"]['_pt_cache']
     out = {}
     for fn in P.functions.values():
         for idx, p in enumerate(fn.params):
@@ -378,7 +378,7 @@ def param_test_summaries(P):
             uses = [x for x in fn.body.walk() if x.k == "DeclRefExpr" and x.get("dk") == "param" and x.name == L]
             if uses and all(_is_truth_use(x) or _is_truth_use_or_cmp(x) for x in uses) and any(_is_truth_use_or_cmp(x) for x in uses):
                 out.setdefault(fn.name, set()).add(idx)
-    _pt_cache[id(P)] = out
+    P.__dict__.setdefault("_memo", {})['_pt_cache'] = out
     return out
 
 
